@@ -3,7 +3,7 @@ import itertools
 from harness.props.ptrcommon import *
 PROP = "C03"
 COQ_FILES = ["Machine.v", "Ptr.v", "Ptr_proofs.v"]
-DRIVERS = drivers("CHAIN", ["chain", "xlate"])
+DRIVERS = drivers("CHAIN", ["chain", "xlate"], CFG_XL)
 
 
 def alphabet(cfg, c):
@@ -19,7 +19,7 @@ def alphabet(cfg, c):
 
 def gen_cases(tier, rng):
     cases = []
-    for cfg, c in CFG.items():
+    for cfg, c in CFG_XL.items():
         A, Bb = c["bases"]
         size = c["size"]
         alpha = alphabet(cfg, c)
